@@ -1,0 +1,82 @@
+//go:build verif
+
+package legacy
+
+import (
+	v1 "github.com/fatedier/frp/pkg/config/v1"
+	"github.com/fatedier/frp/verif"
+)
+
+// The legacy (ini) configuration is converted into the v1 structures every
+// other part of frp reads; what the operator wrote about credentials and
+// transport protection must arrive there unchanged, each switch under its own
+// name.
+//
+// C04 "no session, proxy or work connection without valid client credentials":
+// the authentication method and token are carried over, and the additional
+// scopes are exactly the ones switched on - heartbeats iff
+// authenticate_heartbeats, new work connections iff
+// authenticate_new_work_conns (each scope decided by its own switch).
+// C05: tls_only becomes transport.tls.force and the certificate, key and
+// trusted-CA files keep their roles. C07: the dashboard's user and password.
+// C09: the per-client port quota. C14: the heartbeat timeout.
+//
+//verif:contract ~/pkg/config/legacy.Convert_ServerCommonConf_To_v1
+//verif:props C04 C05 C07 C09 C14
+//verif:kinds post,pre,loop
+func verif_Convert_ServerCommonConf_To_v1(conf *ServerCommonConf) {
+	out := Convert_ServerCommonConf_To_v1(conf)
+	verif.Ensures(out != nil && out.Auth.Method == v1.AuthMethod(conf.ServerConfig.AuthenticationMethod) && out.Auth.Token == conf.ServerConfig.Token, "authentication_method_and_token_carried_over")
+	hb, wc := conf.ServerConfig.AuthenticateHeartBeats, conf.ServerConfig.AuthenticateNewWorkConns
+	sc := out.Auth.AdditionalScopes
+	n := 0
+	if hb {
+		n++
+	}
+	if wc {
+		n++
+	}
+	verif.Ensures(len(sc) == n, "one_scope_per_switch")
+	if hb {
+		verif.Ensures(sc[0] == v1.AuthScopeHeartBeats, "heartbeats_authenticated_iff_switched_on")
+	}
+	if wc {
+		verif.Ensures(sc[n-1] == v1.AuthScopeNewWorkConns, "work_connections_authenticated_iff_switched_on")
+	}
+	verif.Ensures(out.Auth.OIDC.Audience == conf.ServerConfig.OidcAudience && out.Auth.OIDC.Issuer == conf.ServerConfig.OidcIssuer &&
+		out.Auth.OIDC.SkipExpiryCheck == conf.ServerConfig.OidcSkipExpiryCheck && out.Auth.OIDC.SkipIssuerCheck == conf.ServerConfig.OidcSkipIssuerCheck, "oidc_checks_carried_over")
+	verif.Ensures(out.Transport.TLS.Force == conf.TLSOnly && out.Transport.TLS.CertFile == conf.TLSCertFile && out.Transport.TLS.KeyFile == conf.TLSKeyFile && out.Transport.TLS.TrustedCaFile == conf.TLSTrustedCaFile, "tls_only_and_identity_files_keep_their_roles")
+	verif.Ensures(out.WebServer.User == conf.DashboardUser && out.WebServer.Password == conf.DashboardPwd, "dashboard_credentials_carried_over")
+	verif.Ensures(out.MaxPortsPerClient == conf.MaxPortsPerClient && out.Transport.HeartbeatTimeout == conf.HeartbeatTimeout && out.Transport.MaxPoolCount == conf.MaxPoolCount, "quota_heartbeat_timeout_and_pool_bound_carried_over")
+}
+
+// The client side of the same conversion.
+//
+//verif:contract ~/pkg/config/legacy.Convert_ClientCommonConf_To_v1
+//verif:props C04 C05 C07 C14
+//verif:kinds post,pre
+func verif_Convert_ClientCommonConf_To_v1(conf *ClientCommonConf) {
+	out := Convert_ClientCommonConf_To_v1(conf)
+	verif.Ensures(out != nil && out.Auth.Method == v1.AuthMethod(conf.ClientConfig.AuthenticationMethod) && out.Auth.Token == conf.ClientConfig.Token && out.User == conf.User, "authentication_method_token_and_user_carried_over")
+	hb, wc := conf.ClientConfig.AuthenticateHeartBeats, conf.ClientConfig.AuthenticateNewWorkConns
+	sc := out.Auth.AdditionalScopes
+	n := 0
+	if hb {
+		n++
+	}
+	if wc {
+		n++
+	}
+	verif.Ensures(len(sc) == n, "one_scope_per_switch")
+	if hb {
+		verif.Ensures(sc[0] == v1.AuthScopeHeartBeats, "heartbeats_signed_iff_switched_on")
+	}
+	if wc {
+		verif.Ensures(sc[n-1] == v1.AuthScopeNewWorkConns, "work_connections_signed_iff_switched_on")
+	}
+	tls := out.Transport.TLS
+	// (tls_enable travels through a freshly allocated flag, lo.ToPtr: not decided here)
+	verif.Ensures(tls.CertFile == conf.TLSCertFile && tls.KeyFile == conf.TLSKeyFile && tls.TrustedCaFile == conf.TLSTrustedCaFile && tls.ServerName == conf.TLSServerName, "tls_identity_files_and_server_name_keep_their_roles")
+	verif.Ensures(out.WebServer.User == conf.AdminUser && out.WebServer.Password == conf.AdminPwd, "admin_credentials_carried_over")
+	verif.Ensures(out.Transport.HeartbeatInterval == conf.HeartbeatInterval && out.Transport.HeartbeatTimeout == conf.HeartbeatTimeout && out.Transport.PoolCount == conf.PoolCount, "heartbeat_and_pool_settings_carried_over")
+}
